@@ -52,27 +52,27 @@ def unlimbs(l):
     return (l[0] << 16) | l[1]
 
 
-def make_rdata(kind, n1, n2, k, rel):
+def make_rdata(kind, n1, n2, k, rel, rdclass=IN):
     if kind == "A":
         return dns.rdtypes.IN.A.A(IN, 1, "10.0.0.%d" % k)
     if kind == "NS":
-        return dns.rdtypes.ANY.NS.NS(IN, 2, mkname(n1, rel))
+        return dns.rdtypes.ANY.NS.NS(rdclass, 2, mkname(n1, rel))
     if kind == "SOA":
-        return dns.rdtypes.ANY.SOA.SOA(IN, 6, mkname(n1, rel), mkname(n2, rel), k, 3600, 600, 86400, 300)
+        return dns.rdtypes.ANY.SOA.SOA(rdclass, 6, mkname(n1, rel), mkname(n2, rel), k, 3600, 600, 86400, 300)
     if kind == "SRV":
         return dns.rdtypes.IN.SRV.SRV(IN, 33, k, 5, 53, mkname(n1, rel))
     if kind == "RRSIG":
-        return dns.rdtypes.ANY.RRSIG.RRSIG(IN, 46, 1, 8, 2, 300, 1893456000, 1577836800, 1000 + k,
+        return dns.rdtypes.ANY.RRSIG.RRSIG(rdclass, 46, 1, 8, 2, 300, 1893456000, 1577836800, 1000 + k,
                                            mkname(n1, rel), bytes([0, 0, k]))
     if kind == "TXT":
-        return dns.rdtypes.ANY.TXT.TXT(IN, 16, [bytes([120 + k // 1000]) * (k % 1000)])
-    return dns.rdata.GenericRdata(IN, 65280, b"\xaa" * k)
+        return dns.rdtypes.ANY.TXT.TXT(rdclass, 16, [bytes([120 + k // 1000]) * (k % 1000)])
+    return dns.rdata.GenericRdata(rdclass, 65280, b"\xaa" * k)
 
 
-def rec_rdatas(r, rel):
+def rec_rdatas(r, rel, zc=IN):
     step = 1000 if r["kind"] == "TXT" else 0 if r["kind"] == "BIG" else 1
     n = r["nrd"] or 1
-    return [make_rdata(r["kind"], r["n1"], r["n2"], r["k"] + step * i, rel) for i in range(n)]
+    return [make_rdata(r["kind"], r["n1"], r["n2"], r["k"] + step * i, rel, zc) for i in range(n)]
 
 
 FORM_CLS = {"rrset-exists": 255, "name-in-use": 255, "del-rrset": 255, "del-name": 255,
@@ -81,7 +81,12 @@ ANY_TYPE = ("name-in-use", "name-not-in-use", "del-name")
 EMPTY = ("rrset-exists", "name-in-use", "rrset-absent", "name-not-in-use", "del-rrset", "del-name")
 
 
-def make_rrset(r, rel):
+def zone_class(script):
+    h = script[0]
+    return dns.rdataclass.RdataClass.make(h.get("zcls", 1)) if h["opcode"] == dns.opcode.UPDATE else IN
+
+
+def make_rrset(r, rel, zc=IN):
     """the record set of a script record in the representation the parser produces
     (class of the zone + deleting marker for the RFC 2136 class ANY/NONE forms)"""
     form = r["form"]
@@ -89,9 +94,9 @@ def make_rrset(r, rel):
     rdtype = 255 if form in ANY_TYPE else KIND_TYPE[r["kind"]]
     deleting = FORM_CLS.get(form)
     empty = form in EMPTY or (form == "plain" and r["nrd"] == 0)
-    rds = [] if empty else rec_rdatas(r, rel)
+    rds = [] if empty else rec_rdatas(r, rel, zc)
     covers = rds[0].covers() if rds else dns.rdatatype.NONE
-    rs = dns.rrset.RRset(name, IN, rdtype, covers, deleting)
+    rs = dns.rrset.RRset(name, zc, rdtype, covers, deleting)
     ttl = 0 if form not in ("plain", "add") else unlimbs(r["ttl"])
     for rd in rds:
         rs.add(rd, ttl)
@@ -167,6 +172,8 @@ def low_level(script, rel, max_size=65535):
     """step the real Renderer through the script; one event per call"""
     h = script[0]
     ev = []
+    max_size = h.get("max", max_size)
+    zc = zone_class(script)
     r = dns.renderer.Renderer(h["id"], hdr_flags(h), max_size, ORIGIN if rel else None)
     ev.append({"op": "new", "id": h["id"], "flags": hdr_flags(h), **state(r)})
     for s in script[1:]:
@@ -174,15 +181,23 @@ def low_level(script, rel, max_size=65535):
             res, exc = call(r.add_question, mkname(s["name"], rel), s["type"], s["cls"])
             ev.append({"op": "q", "name": s["name"], "type": s["type"], "cls": s["cls"], "res": res, **state(r)})
         elif s["op"] == "rr":
-            res, exc = call(r.add_rrset, s["sec"], make_rrset(s, rel), want_shuffle=False)
+            res, exc = call(r.add_rrset, s["sec"], make_rrset(s, rel, zc), want_shuffle=False)
             e = dict(s)
             e.update(res=res, **state(r))
             ev.append(e)
         elif s["op"] == "end" and h["edns"][0] == "edns":
             e = h["edns"]
-            res, exc = call(r.add_edns, e[1], opt_ttl(h), e[3], make_options(e[4]))
-            ev.append({"op": "opt", "payload": e[3], "ttl": limbs(opt_ttl(h)), "options": e[4], "pad": 0,
-                       "osize": 0, "tsize": 0, "res": res, **state(r)})
+            pad = h.get("pad", 0)
+            osize = 0
+            if pad:
+                # add_opt with padding; osize = size of the OPT record with an empty padding option
+                osize = 11 + sum(4 + o[1] for o in e[4]) + 4
+                opt = dns.renderer._make_opt(opt_ttl(h), e[3], make_options(e[4]))
+                res, exc = call(r.add_opt, opt, pad, osize, 0)
+            else:
+                res, exc = call(r.add_edns, e[1], opt_ttl(h), e[3], make_options(e[4]))
+            ev.append({"op": "opt", "payload": e[3], "ttl": limbs(opt_ttl(h)), "options": e[4], "pad": pad,
+                       "osize": osize, "tsize": 0, "res": res, **state(r)})
     r.write_header()
     ev.append({"op": "hdr", **state(r)})
     ev.append({"op": "wire", "wire": list(r.get_wire())})
@@ -193,6 +208,7 @@ def build_message(script, rel, mode):
     """the same message as a dns.message object.  mode 'direct': record sets in the parser's
     representation; mode 'builder': RFC 2136 forms through the UpdateMessage convenience API"""
     h = script[0]
+    zc = zone_class(script)
     if h["opcode"] == dns.opcode.UPDATE:
         m = dns.update.UpdateMessage(id=h["id"])
         if rel:
@@ -213,7 +229,7 @@ def build_message(script, rel, mode):
             if mode == "builder" and s["form"] != "plain":
                 builder_add(m, s, rel)
             else:
-                rs = make_rrset(s, rel)
+                rs = make_rrset(s, rel, zc)
                 if h["opcode"] == dns.opcode.UPDATE and len(rs) > 1:
                     # an update message holds one record per RRset (as its builder and parser do)
                     for rd in rs:
@@ -224,7 +240,7 @@ def build_message(script, rel, mode):
                     m.sections[s["sec"]].append(rs)
     e = h["edns"]
     if e[0] == "edns":
-        m.use_edns(e[1], e[2], e[3], options=make_options(e[4]))
+        m.use_edns(e[1], e[2], e[3], options=make_options(e[4]), pad=h.get("pad", 0))
     m.set_rcode(h["rcode"])
     return m
 
@@ -233,7 +249,7 @@ def builder_add(m, s, rel):
     name = mkname(s["name"], rel)
     form = s["form"]
     rdtype = KIND_TYPE[s["kind"]]
-    rds = rec_rdatas(s, rel)
+    rds = rec_rdatas(s, rel, m.zone_rdclass)
     if form == "add":
         m.add(name, unlimbs(s["ttl"]), *rds)
     elif form == "del-rr":
@@ -310,7 +326,8 @@ def _norm(sections, fix):
 def code_traces():
     """dns.rcode / dns.opcode flag packing on their whole domains (4096 rcodes, 16 opcodes)"""
     import dns.rcode
-    hdr = {"op": "hdr", "id": 1, "opcode": 0, "bits": 0, "rcode": 0, "origin": False, "edns": ["none"]}
+    hdr = {"op": "hdr", "id": 1, "opcode": 0, "bits": 0, "rcode": 0, "origin": False, "edns": ["none"], "pad": 0, "zcls": 1,
+           "max": 65535}
     traces = []
     for lo in range(0, 4096, 256):
         ev = [{"op": "new", "id": 1, "flags": 0, "pos": 12, "table": [], "counts": [0, 0, 0, 0], "section": 0,
@@ -346,7 +363,8 @@ def run_job(job):
             _CMP = probe_cmp()
         rel = bool(script[0]["origin"])
         ev = low_level(script, rel)
-        ev.append(high_level(script, rel, mode))
+        if mode != "low":
+            ev.append(high_level(script, rel, mode))
         return {"tid": tid, "cmp": _CMP, "rel": rel, "hdr": script[0], "mode": mode, "ev": ev}
     except Exception as ex:
         return {"tid": tid, "cmp": {"NS": [True, True], "SOA": [True, True], "SRV": [True, True], "RRSIG": [False, False]},
